@@ -26,6 +26,8 @@
 extern crate log;
 
 mod cancel;
+#[cfg(may_verif)]
+pub mod verif;
 mod config;
 mod join;
 mod likely;
